@@ -41,7 +41,8 @@ STUBS = ["np.round on symbolic c+delta: finite set of candidate roundings with e
          "Fraction(x).limit_denominator(M) on symbolic x: the real limit_denominator is run on the interval midpoint, and the answer F is accepted only "
          "after the solver/interval check that x lies strictly between the midpoints to F's Farey neighbours of order M (contract: closest fraction); "
          "validated against the real Fraction on random doubles in the case 'stub validation'",
-         "np.allclose on Lifted alternatives: evaluated per alternative", "warnings.warn: no-op"]
+         "np.allclose on Lifted alternatives: evaluated per alternative", "warnings.warn: no-op",
+         "ndarray.astype(int) on a bounded symbolic value: truncation towards zero, decided by forking over the integer candidates (harness-local array class KArr)"]
 
 
 # ------------------------------------------------------------------------------------------------------------
@@ -276,13 +277,42 @@ def build_list(model, mesh, seed, L=None, base="shuffled", first=None):
     raise ValueError(model)
 
 
+def trunc_fork(x):
+    """int(x) (truncation towards zero, what ndarray.astype(int) does) of a bounded symbolic value: fork over the integer candidates"""
+    if isinstance(x, Lifted):
+        x = x.concretize()
+    if not isinstance(x, SymC):
+        return int(x)
+    if x.isconst():
+        return int(float(x))
+    lo, hi = interval(x)
+    nlo, nhi = math.trunc(lo), math.trunc(hi)
+    if nlo == nhi:
+        return nlo
+    xz = x.zreal()
+    alts = []
+    for n in range(nlo, nhi + 1):
+        g = z3.And(xz > n - 1, xz < n + 1) if n == 0 else (z3.And(xz >= n, xz < n + 1) if n > 0 else z3.And(xz > n - 1, xz <= n))
+        alts.append((g, n))
+    return Lifted(alts).concretize()
+
+
+class KArr(SymArray):
+    """k-point array: astype(int) on symbolic entries is decided by forking (truncation, as numpy does)"""
+
+    def astype(s, dtype, *a, **k):
+        if s.dtype == object and dtype in (int, np.int64, 'int'):
+            return np.array([trunc_fork(x) for x in s.flat], dtype=int).reshape(s.shape)
+        return super().astype(dtype, *a, **k)
+
+
 def sym_kpoints(idx, mesh, dl):
     pts = mesh_points(mesh)
     k = np.empty((len(idx), 3), dtype=object)
     for j, p in enumerate(idx):
         for a in range(3):
             k[j, a] = SymC.of(pts[p][a] / mesh[a]) + dl[j, a]
-    return k.view(SymArray)
+    return k.view(KArr)
 
 
 # ------------------------------------------------------------------------------------------------------------
@@ -354,7 +384,13 @@ def case_mesh(rec, fn, mesh, model, seed, L=None, base="shuffled", first=None, g
     ass = list(ass) + [z for d in dl.flat for z in (d.zreal() >= -dmax, d.zreal() <= dmax)]
     g = None if grid is None else (tuple(mesh) if grid == "mesh" else tuple(grid))
 
+    nv0 = len(rec.violations)
+
     def body(rec):
+        if len(rec.violations) - nv0 >= 3:
+            # this job already produced counterexamples (exit code is 1 whatever follows): do not enumerate the remaining, possibly exponentially many, paths
+            rec.note("a job with >=3 counterexamples is not explored further")
+            raise Assume("job already has counterexamples")
         idx = make()
         k = sym_kpoints(idx, mesh, dl)
         rec.witness = lambda env, idx=idx, k=k: dict(fn=fn, mesh=list(mesh), idx=idx, grid=g, kpoints=env.val(k))
@@ -367,13 +403,16 @@ def case_mesh(rec, fn, mesh, model, seed, L=None, base="shuffled", first=None, g
             else:
                 out = U.grid_from_kpoints(k, grid=g)
             outcome = ("return", [int(x) for x in out])
-        except (AssertionError, ValueError) as e:
+        except (AssertionError, ValueError, RuntimeError) as e:
             outcome = ("raise", type(e).__name__)
         ok, txt = judge(fn, mesh, idx, g, outcome)
         what = {"get_mp_grid": "get_mp_grid: complete mesh => N; otherwise returned grid contains all points",
                 "grid_from_kpoints": "grid_from_kpoints: complete => grid / each point once; incomplete => ValueError"}[fn]
         rec.concrete(what, ok, detail=txt, key=f"{fn}(grid={'None' if g is None else 'given'}) {outcome[0]} disagrees with the specification")
-    rec.explore(body, ass)
+    # path budget: the list model alone determines the number of paths on the code as it is (x rounding forks of the sub-grid cases); a changed code that forks on
+    # every coordinate must end as 'budget exhausted' (inconclusive, never success) instead of running for hours
+    expected = _weight(dict(mesh=mesh, model=model, L=L, first=first)) // (10 + nk)
+    rec.explore(body, ass, maxpaths=6 * expected + 60)
 
 
 def case_stub_validation(rec, seed):
